@@ -591,21 +591,29 @@ func (ds *DataStore) Update(ctx context.Context, key string, exp uint32, callbac
 // --- subdoc
 
 func (ds *DataStore) SubdocInsert(ctx context.Context, k string, subdocPath string, cas uint64, value any) error {
-	alt, idx, ferr := ds.pre("SubdocInsert", k, opCasWrite)
+	kind := opCasWrite
+	if cas == 0 {
+		kind = opWrite // cas 0 = "ignore CAS conflicts": a CAS mismatch is not a possible answer
+	}
+	alt, idx, ferr := ds.pre("SubdocInsert", k, kind)
 	if ferr != nil {
-		return ds.fail("SubdocInsert", k, opCasWrite, alt, idx, ferr)
+		return ds.fail("SubdocInsert", k, kind, alt, idx, ferr)
 	}
 	err := ds.DataStore.SubdocInsert(ctx, k, subdocPath, cas, value)
-	return ds.post("SubdocInsert", k, opCasWrite, alt, idx, err)
+	return ds.post("SubdocInsert", k, kind, alt, idx, err)
 }
 
 func (ds *DataStore) WriteSubDoc(ctx context.Context, k string, subdocPath string, cas uint64, value []byte) (uint64, error) {
-	alt, idx, ferr := ds.pre("WriteSubDoc", k, opCasWrite)
+	kind := opCasWrite
+	if cas == 0 {
+		kind = opWrite
+	}
+	alt, idx, ferr := ds.pre("WriteSubDoc", k, kind)
 	if ferr != nil {
-		return 0, ds.fail("WriteSubDoc", k, opCasWrite, alt, idx, ferr)
+		return 0, ds.fail("WriteSubDoc", k, kind, alt, idx, ferr)
 	}
 	casOut, err := ds.DataStore.WriteSubDoc(ctx, k, subdocPath, cas, value)
-	err = ds.post("WriteSubDoc", k, opCasWrite, alt, idx, err)
+	err = ds.post("WriteSubDoc", k, kind, alt, idx, err)
 	if err != nil {
 		return 0, err
 	}
